@@ -91,7 +91,9 @@ func (r *Router) RestoreLastSavedState() error {
 }
 
 func (r *Router) ServeHTTP(w http.ResponseWriter, req *http.Request) {
+	simYield("router.serve", req)
 	service, prefix := r.serviceForRequest(req)
+	simYield("router.routed", req)
 	if service == nil {
 		SetErrorResponse(w, req, http.StatusNotFound, nil)
 		return
@@ -110,6 +112,7 @@ func (r *Router) DeployService(name string, targetURLs []string, options Service
 	if err != nil {
 		return err
 	}
+	simYield("deploy.found", name)
 
 	slog.Info("Deploying", "service", name, "hosts", options.Hosts, "paths", options.PathPrefixes, "targets", targetURLs, "tls", options.TLSEnabled, "strip", options.StripPrefix)
 	err = r.deployTargetsIntoService(service, TargetSlotActive, targetURLs, deployTimeout, drainTimeout)
@@ -128,6 +131,7 @@ func (r *Router) SetRolloutTargets(name string, targetURLs []string, deployTimeo
 	}
 
 	slog.Info("Deploying for rollout", "service", name, "targets", targetURLs)
+	simYield("deploy.found", name)
 
 	err := r.deployTargetsIntoService(service, TargetSlotRollout, targetURLs, deployTimeout, drainTimeout)
 	if err != nil {
@@ -145,6 +149,7 @@ func (r *Router) SetRolloutSplit(name string, percent int, allowList []string) e
 	if service == nil {
 		return ErrorServiceNotFound
 	}
+	simYield("cmd.found", name)
 
 	return service.SetRolloutSplit(percent, allowList)
 }
@@ -156,6 +161,7 @@ func (r *Router) StopRollout(name string) error {
 	if service == nil {
 		return ErrorServiceNotFound
 	}
+	simYield("cmd.found", name)
 
 	return service.StopRollout()
 }
@@ -183,6 +189,7 @@ func (r *Router) PauseService(name string, drainTimeout time.Duration, pauseTime
 	if service == nil {
 		return ErrorServiceNotFound
 	}
+	simYield("cmd.found", name)
 
 	return service.Pause(drainTimeout, pauseTimeout)
 }
@@ -194,6 +201,7 @@ func (r *Router) StopService(name string, drainTimeout time.Duration, message st
 	if service == nil {
 		return ErrorServiceNotFound
 	}
+	simYield("cmd.found", name)
 
 	return service.Stop(drainTimeout, message)
 }
@@ -205,6 +213,7 @@ func (r *Router) ResumeService(name string) error {
 	if service == nil {
 		return ErrorServiceNotFound
 	}
+	simYield("cmd.found", name)
 
 	return service.Resume()
 }
@@ -268,23 +277,30 @@ func (r *Router) deployTargetsIntoService(service *Service, targetSlot TargetSlo
 	}
 
 	lb := NewLoadBalancer(tl)
+	simYield("deploy.probing", lb)
 	err = lb.WaitUntilHealthy(deployTimeout)
 	if err != nil {
 		lb.Dispose()
 		return err
 	}
+	simYield("deploy.healthy", lb)
 
+	simYield("deploy.beforeUpdate", lb)
 	replaced := service.UpdateLoadBalancer(lb, targetSlot)
 
+	simYield("deploy.beforeInstall", lb)
 	err = r.installService(service)
 	if err != nil {
 		return err
 	}
 
 	if replaced != nil {
+		simYield("deploy.beforeDrain", replaced)
 		replaced.DrainAll(drainTimeout)
+		simYield("deploy.beforeDispose", replaced)
 		replaced.Dispose()
 	}
+	simYield("deploy.done", lb)
 
 	return nil
 }
@@ -292,6 +308,7 @@ func (r *Router) deployTargetsIntoService(service *Service, targetSlot TargetSlo
 func (r *Router) installService(s *Service) error {
 	defer r.saveStateSnapshot()
 
+	simYield("router.install", s)
 	err := r.withWriteLock(func() error {
 		conflict := r.services.CheckAvailability(s.name, s.options)
 		if conflict != nil {
@@ -319,6 +336,7 @@ func (r *Router) findOrCreateService(name string, options ServiceOptions, target
 }
 
 func (r *Router) saveStateSnapshot() error {
+	simYield("snapshot.begin", r)
 	services := []*Service{}
 	r.withReadLock(func() error {
 		for _, service := range r.services.All() {
@@ -327,17 +345,20 @@ func (r *Router) saveStateSnapshot() error {
 		return nil
 	})
 
+	simYield("snapshot.beforeCreate", r)
 	f, err := os.Create(r.statePath)
 	if err != nil {
 		return err
 	}
 
+	simYield("snapshot.created", r)
 	err = json.NewEncoder(f).Encode(services)
 	if err != nil {
 		slog.Error("Unable to save state", "error", err, "path", r.statePath)
 		return err
 	}
 
+	simYield("snapshot.written", r)
 	slog.Debug("Saved state", "path", r.statePath)
 	return nil
 }
